@@ -9,12 +9,32 @@ from oracle import skey
 BOUND = ("networks with <= 6 variables (exhaustive 1-variable, sampled 2-variable, seeded random 3-6(7) variables) and hand-built networks with <= 9 "
          "variables; seeded histories of <= 4 (quick) / <= 7 (thorough) plain expansion calls (bfs, dfs, minimal-space, attractor-seed, target-directed, "
          "block without source shortcuts, single-node expansion) with random size/level/stack limits in 0..8 and random start nodes; all structural "
-         "invariants re-checked against the brute-force lattice after every call; then unrestricted bfs or dfs compared with a fresh full expansion")
+         "invariants re-checked against the brute-force lattice after every call; then unrestricted bfs or dfs compared with a fresh full expansion; plus networks with "
+         "diagrams of depth >= 2 (unions of bistable modules, nested switches, latch DAGs) under 'partial expansion, then a shallower level-limited bfs' and depth-first "
+         "histories")
 RULE = "non-trivial = the reference diagram has >= 3 nodes and at least one step left the diagram partially expanded (a stub existed after it)"
 CASE_TIMEOUT = 60.0
 
 
+def shape_cases(seed, tier):
+    fixed = families.shallower_histories()
+    for k, (name, bnet) in enumerate(families.deep_nets(seed, tier)):
+        names = families.variables(bnet)
+        rng = random.Random(f"{seed}-{name}-c04-shallow")
+        if name in families.DEEP:
+            picks = [p + [f] for p, f in fixed] + families.depth_first_histories(rng)
+        else:
+            pre, final = families.random_shallower_history(rng, names)
+            picks = [fixed[k % len(fixed)][0] + [fixed[k % len(fixed)][1]], pre + [final], rng.choice(families.depth_first_histories(rng)[1:])]
+        for h in picks:
+            yield {"net": name, "bnet": bnet, "history": h, "finish": "dfs" if k % 2 else "bfs"}
+
+
 def cases(seed, tier):
+    yield from families.interleave((shape_cases(seed, tier), 1), (general_cases(seed, tier), 4))
+
+
+def general_cases(seed, tier):
     maxlen = 4 if tier == "quick" else 7
     for name, bnet in families.network_family(seed, tier, hand_max_vars=9):
         names = families.variables(bnet)
